@@ -164,6 +164,7 @@ package base
 //@ func (e *SentinelEntry) Exit(exitOps)
 //@   props C01, C16
 //@   requires e != nil && (e.sc != nil ==> e.sc.ctxPool != nil) && (e.ctx != nil ==> e.ctx.Input != nil)
+//@   requires[options-not-nil] forall k Int :: 0 <= k && k < len(exitOps) ==> exitOps[k] != nil
 //@   panics never
 //@   let done0 = oncedone(e.exitCtl)
 //@   let ctx = e.ctx
